@@ -186,6 +186,31 @@ impl<'a> Runner<'a> {
             self.exec_step(&mf.join(":"), false);
             return;
         }
+        if st.starts_with("Z:") {
+            if self.panicked {
+                return;
+            }
+            let f: Vec<&str> = st.split(':').collect();
+            if f.len() < 7 {
+                return;
+            }
+            let mf: Vec<&str> = std::iter::once("m").chain(f[2..].iter().copied()).collect();
+            self.steps.push(st.to_string());
+            self.out.stat("step:Z");
+            if catch_unwind(AssertUnwindSafe(|| self.w.run_pair_init(f[1], &mf))).is_err() {
+                self.panicked = true;
+                if !self.overflow_config() {
+                    let p = self.prop.clone();
+                    self.hit(&p, format!("{}:panic:Z", p), format!("step `{}` panicked", st));
+                }
+                return;
+            }
+            self.pair_first = true;
+            self.exec_step(&format!("i:{}", f[1]), false);
+            self.pair_first = false;
+            self.exec_step(&mf.join(":"), false);
+            return;
+        }
         if st.starts_with("Y:") {
             if self.panicked {
                 return;
@@ -316,7 +341,7 @@ impl<'a> Runner<'a> {
                     maps.push(m);
                 }
             }
-            if f[0] == "X" && f.len() > 4 {
+            if (f[0] == "X" || f[0] == "Z") && f.len() > 4 {
                 if let Some(m) = parse_map(f[4]) {
                     maps.push(m);
                 }
@@ -1228,6 +1253,12 @@ fn gen_case(r: &mut Prng, prop: &str, n: u64, out: &mut Out) -> (String, String,
                     let lives: Vec<String> = run.w.live.values().map(|l| l.path.clone()).collect();
                     let p = if !lives.is_empty() && g.r.chance(3, 4) { g.r.pick(&lives).clone() } else if g.r.chance(1, 3) { g.r.pick(ODD_PATHS).to_string() } else { g.r.pick(PATHS).to_string() };
                     format!("u:{}", p)
+                }
+                25 if prop != "C19" => {
+                    // the client's INIT is served while a mount is inside its backend's mount()
+                    let m = g.mount_step(&run.w, prop, None);
+                    let bits = match g.r.below(4) { 0 => 0u64, 1 => 131072 | 16777216 | 1, 2 => 0xffff_ffff & !(1u64 << 31), _ => 131072 | 8 | 65536 };
+                    if !m.starts_with("m:") { m } else { format!("Z:{}:{}", bits, &m[2..]) }
                 }
                 25..=27 => format!("i:{}", match g.r.below(6) { 0 => 0, 1 => 1, 2 => 131072 | 16777216 | 1, 3 => 0xffff_ffff & !(1u64 << 31), 4 => 131072 | 8 | 65536, _ => g.r.next() & 0x3fff_ffff }),
                 28 => "d".to_string(),
